@@ -7,6 +7,8 @@ pub struct Recorder {
     pub log: Arc<Mutex<Vec<String>>>,
     /// how backend methods answer: "not_implemented" (default) | "ok_default" | "ok_status:<code>" | "ok_header:<name>=<value>" | "err:<Code>"
     pub mode: Arc<Mutex<String>>,
+    /// `{:?}` of every typed input a backend method received
+    pub inputs: Arc<Mutex<Vec<String>>>,
 }
 
 impl Recorder {
@@ -14,9 +16,14 @@ impl Recorder {
         let who = cred.as_ref().map_or("anonymous".to_owned(), |c| c.access_key.clone());
         self.log.lock().unwrap().push(format!("{name}@{who}"));
     }
+    /// mode "ok_field:<field>=<value>": the member the backend's output carries
+    pub fn fill(&self) -> Option<(String, String)> {
+        let mode = self.mode.lock().unwrap().clone();
+        mode.strip_prefix("ok_field:").and_then(|x| x.split_once('=')).map(|(f, v)| (f.to_owned(), v.to_owned()))
+    }
     pub fn answer<O: Default>(&self, _name: &str) -> s3s::S3Result<s3s::S3Response<O>> {
         let mode = self.mode.lock().unwrap().clone();
-        if mode == "ok_default" {
+        if mode == "ok_default" || mode.starts_with("ok_field:") {
             return Ok(s3s::S3Response::new(O::default()));
         }
         if let Some(code) = mode.strip_prefix("ok_status:") {
@@ -45,6 +52,7 @@ pub struct Outcome {
     pub headers: Vec<(String, String)>,
     pub body: String,
     pub calls: Vec<String>,
+    pub inputs: Vec<String>,
     pub transport_error: Option<String>,
 }
 
@@ -52,6 +60,7 @@ pub fn call(method: &str, uri: &str, headers: &[(String, String)], body: Vec<u8>
     let rec = Recorder::default();
     *rec.mode.lock().unwrap() = mode.to_owned();
     let log = rec.log.clone();
+    let inputs = rec.inputs.clone();
     let svc = s3s::service::S3ServiceBuilder::new(rec).build();
     let mut b = http::Request::builder().method(method).uri(uri);
     for (n, v) in headers {
@@ -72,7 +81,8 @@ pub fn call(method: &str, uri: &str, headers: &[(String, String)], body: Vec<u8>
         }
     });
     let calls = log.lock().unwrap().clone();
-    Outcome { status: res.0, headers: res.1, body: res.2, calls, transport_error: res.3 }
+    let inputs = inputs.lock().unwrap().clone();
+    Outcome { status: res.0, headers: res.1, body: res.2, calls, inputs, transport_error: res.3 }
 }
 
 fn snake(op: &str) -> String {
@@ -181,4 +191,60 @@ pub fn bind(a: &[String]) -> Value {
     let ok = o.calls.is_empty() && (400..500).contains(&o.status);
     json!({"violates": !ok, "input": {"request": format!("{method} {uri}"), "what": what}, "expected": "a client error (4xx) and no backend invocation",
            "observed": {"status": o.status, "backend_calls": o.calls, "body": o.body.chars().take(200).collect::<String>()}, "replay_args": ["bind", a[0]]})
+}
+
+fn hdrs(a: &[String]) -> Vec<(String, String)> {
+    a.iter().filter_map(|h| h.split_once('=')).map(|(n, v)| (n.to_owned(), v.to_owned())).collect()
+}
+
+fn reached(o: &Outcome) -> bool { o.calls.iter().filter(|c| c.contains('@')).count() == 1 }
+
+/// wire-status <METHOD> <uri> <expected status> <body> [name=value headers…]: the success status of an operation whose backend
+/// answers with a default output and no status override (C03: "the success status the API model prescribes"). A request that
+/// does not reach the backend decides nothing (inconclusive).
+pub fn wire_status(a: &[String]) -> Value {
+    let o = call(&a[0], &a[1], &hdrs(&a[4..]), a[3].clone().into_bytes(), "ok_default");
+    let r = reached(&o);
+    let ok = !r || o.status.to_string() == a[2];
+    let mut args = vec!["wire-status".to_owned()]; args.extend(a.iter().cloned());
+    json!({"violates": !ok, "inconclusive": !r, "input": {"request": format!("{} {}", a[0], a[1]), "backend_answer": "default output, no status override"},
+           "expected": format!("status {} (the model's http code for the operation)", a[2]),
+           "observed": {"status": o.status, "backend_calls": o.calls, "body": o.body.chars().take(200).collect::<String>()}, "replay_args": args})
+}
+
+/// wire-de <strict|lenient> <METHOD> <uri> <field> <value> <body> [name=value headers…]: the typed input the backend receives
+/// must carry `<field>` with `<value>` (looked up in the input's Debug text; an empty field asks for acceptance only). A request
+/// that is refused is a violation in strict mode (the caller has seen the same request without the member accepted) and
+/// inconclusive in lenient mode.
+pub fn wire_de(a: &[String]) -> Value {
+    let strict = a[0] == "strict";
+    let a = &a[1..];
+    let o = call(&a[0], &a[1], &hdrs(&a[5..]), a[4].clone().into_bytes(), "ok_default");
+    let dbg = o.inputs.first().cloned().unwrap_or_default();
+    let r = reached(&o);
+    let carried = a[2].is_empty() || dbg.find(&format!(" {}: ", a[2])).is_some_and(|p| {
+        let rest = &dbg[p + a[2].len() + 3..];
+        let end = rest.find(", ").unwrap_or(rest.len()).max(a[3].len() + 2).min(rest.len());
+        rest[..end].contains(a[3].as_str())
+    });
+    let ok = if r { carried } else { !strict };
+    let mut args = vec!["wire-de".to_owned(), if strict { "strict".to_owned() } else { "lenient".to_owned() }]; args.extend(a.iter().cloned());
+    json!({"violates": !ok, "inconclusive": !r && !strict, "input": {"request": format!("{} {}", a[0], a[1]), "headers": hdrs(&a[5..]), "body": a[4]},
+           "expected": format!("one backend invocation whose input has {} = {}", a[2], a[3]),
+           "observed": {"status": o.status, "backend_calls": o.calls, "input": dbg.chars().take(600).collect::<String>(), "body": o.body.chars().take(200).collect::<String>()}, "replay_args": args})
+}
+
+/// wire-ser <METHOD> <uri> <field>=<value> <header name> <body> [name=value headers…]: the backend's output carries the member;
+/// the response must carry it under the declared header. Inconclusive when the backend is not reached or the member cannot be set.
+pub fn wire_ser(a: &[String]) -> Value {
+    let o = call(&a[0], &a[1], &hdrs(&a[5..]), a[4].clone().into_bytes(), &format!("ok_field:{}", a[2]));
+    let (_, v) = a[2].split_once('=').unwrap();
+    let filled = !o.calls.iter().any(|c| c.starts_with("fill-failed"));
+    let r = reached(&o) && filled && (200..300).contains(&o.status);
+    let got: Vec<&(String, String)> = o.headers.iter().filter(|(n, _)| n == &a[3]).collect();
+    let ok = !r || (got.len() == 1 && got[0].1 == v);
+    let mut args = vec!["wire-ser".to_owned()]; args.extend(a.iter().cloned());
+    json!({"violates": !ok, "inconclusive": !r, "input": {"request": format!("{} {}", a[0], a[1]), "backend_output_member": a[2]},
+           "expected": format!("response header {}: {}", a[3], v),
+           "observed": {"status": o.status, "headers": o.headers, "backend_calls": o.calls, "body": o.body.chars().take(200).collect::<String>()}, "replay_args": args})
 }
